@@ -5,8 +5,9 @@
    set_representation, kappa (the exponent on the real axis, kappa s = psi(-i s)) and the route formulas are in Model/LevyExponent.v. *)
 From Coq Require Import Reals Bool List.
 From Coquelicot Require Import Coquelicot.
-From RV Require Import Base.RB Gen.GenC10Triplet Gen.GenC10Hem Gen.GenC10Merton Gen.GenC10Vg Gen.GenC10Cgmy Gen.GenC10Bs Gen.GenC10Exp
-  Gen.GenC09Hem Gen.GenC09Trunc Model.LevyClosedForms Model.LevyExponent Proofs.C10_Triplet Proofs.C10_Exponent Proofs.C10_HemLK Proofs.C10_Cgmy.
+From RV Require Import Base.RB Gen.GenC10Triplet Gen.GenC10Hem Gen.GenC10Merton Gen.GenC10Vg Gen.GenC10Cgmy Gen.GenC10Bs Gen.GenC10Exp Gen.GenC10Jump
+  Gen.GenC09Hem Gen.GenC09Vg Gen.GenC09Trunc Model.LevyClosedForms Model.LevyExponent Proofs.C10_Triplet Proofs.C10_Exponent Proofs.C10_HemLK
+  Proofs.C10_Cgmy Proofs.C10_VgLK Proofs.C10_Jump Proofs.C10_Reinit.
 Import ListNotations.
 Open Scope R_scope.
 
@@ -95,13 +96,85 @@ Theorem C10_cumulants_cgmy_partial : forall a c g m y CG (Gamma : R -> R) t, 0 <
 Proof. exact cgmy_cumulants. Qed.
 
 (* --- the exponent is the Levy-Khintchine integral of the model's own density in the declared representation.
-   Proved for HEM (declared ZERO: integrand e^{s x} - 1) on the whole strip -eta2 < s < eta1 as the limit of finite integrals;
-   for Merton / VG / CGMY this clause is validated by the quadrature oracle only (see MODELLED). *)
+   Proved for HEM (declared ZERO: integrand e^{s x} - 1) on the whole strip -eta2 < s < eta1 as the limit of finite integrals, and
+   for Variance Gamma (C10_vg_exponent, Frullani) on the whole strip -lambda_m < s < lambda_p as an improper integral at both ends;
+   for Merton / CGMY this clause is validated by the quadrature oracle only (see MODELLED). *)
 Theorem C10_hem_exponent : forall lam p eta1 eta2 s, 0 < eta1 -> 0 < eta2 -> - eta2 < s < eta1 ->
   is_lim (fun a => RInt (fun x => lk_integrand ZERO true s x * hem_nu lam p eta1 eta2 x) a 0) m_infty (Ln lam p eta2 s) /\
   is_lim (fun b => RInt (fun x => lk_integrand ZERO true s x * hem_nu lam p eta1 eta2 x) 0 b) p_infty (Lp lam p eta1 s) /\
   hem_pj lam p eta1 eta2 s = Ln lam p eta2 s + Lp lam p eta1 s.
 Proof. exact hem_exponent_is_LK. Qed.
+
+(* Variance Gamma (declared ZERO, infinite activity): c, lambda_m, lambda_p are the py2coq translations of VGParameters.__init__,
+   vg_nu that of _VGLevyMeasure.__call__ (Gen.GenC09Vg), vg_pj that of levy_exponent_pure_jump.  The integrand is singular at 0 and
+   the range unbounded: is_RInt_gen with the filters (m_infty, at_left 0) and (at_right 0, p_infty).  Genuine proof (Frullani: substitution,
+   Chasles, monotonicity of the integral of e^{-u}/u; explicit rates), no hypothesis on special functions. *)
+Theorem C10_vg_exponent : forall sigma nu theta s, 0 < sigma -> 0 < nu ->
+  let c := vg_init_c sigma nu theta in let lm := vg_init_lambda_m sigma nu theta in let lp := vg_init_lambda_p sigma nu theta in
+  - lm < s < lp ->
+  is_RInt_gen (fun x => lk_integrand ZERO true s x * vg_nu c lm lp x) (Rbar_locally m_infty) (at_left 0) (VLn c lm s) /\
+  is_RInt_gen (fun x => lk_integrand ZERO true s x * vg_nu c lm lp x) (at_right 0) (Rbar_locally p_infty) (VLp c lp s) /\
+  vg_pj sigma nu theta s = VLn c lm s + VLp c lp s.
+Proof. exact vg_exponent_is_LK. Qed.
+
+(* --- direct simulation of the NON-exponential Levy model L (LevyModel.process_drift = levy_triplet.a, regenerated): declared ZERO, the
+       jumps are not compensated, so the mean rate of the simulated process is process_drift + int x nu(dx); it is cumulant1(1).
+       HEM / VG: the first moment is the limit of the integrals of x times the generated density.  Merton (_algebra): the first
+       moment lam mu_j is that of the generated sampler mu_j + sigma_j g for a symmetric g; E g = 0 is not formalised. *)
+Theorem C10_levy_direct_mean_hem : forall INF lam p e1 e2, 0 < e1 -> 0 < e2 -> 0 < INF ->
+  let a0 := hem_a lam p e1 e2 in
+  let Mn := hem_integrate_x INF lam p e1 e2 (- INF) 0 in
+  let Mp := hem_integrate_x INF lam p e1 e2 0 INF in
+  is_lim (fun a => RInt (fun x => x ^ 1 * hem_nu lam p e1 e2 x) a 0) m_infty Mn /\
+  is_lim (fun b => RInt (fun x => x ^ 1 * hem_nu lam p e1 e2 x) 0 b) p_infty Mp /\
+  levy_process_drift a0 + (Mn + Mp) = hem_cumulant1 a0 lam p e1 e2 1 /\
+  hem_cumulant1 a0 lam p e1 e2 1 = 0.
+Proof. exact hem_levy_mean_rate. Qed.
+Theorem C10_levy_direct_mean_vg : forall sigma nu theta, 0 < sigma -> 0 < nu ->
+  let c := vg_init_c sigma nu theta in let lm := vg_init_lambda_m sigma nu theta in let lp := vg_init_lambda_p sigma nu theta in
+  is_lim (fun a => RInt (fun x => x ^ 1 * vg_nu c lm lp x) a 0) m_infty (- c / lm) /\
+  is_lim (fun b => RInt (fun x => x ^ 1 * vg_nu c lm lp x) 0 b) p_infty (c / lp) /\
+  levy_process_drift 0 + (- c / lm + c / lp) = vg_cumulant1 0 sigma nu theta 1 /\
+  vg_cumulant1 0 sigma nu theta 1 = theta.
+Proof. exact vg_levy_mean_rate. Qed.
+Theorem C10_levy_direct_mean_merton_algebra : forall lam mu_j sigma_j g,
+  (merton_jump mu_j sigma_j g + merton_jump mu_j sigma_j (- g)) / 2 = mu_j /\
+  levy_process_drift (merton_a lam mu_j sigma_j) + lam * mu_j = merton_cumulant1 (merton_a lam mu_j sigma_j) lam mu_j sigma_j 1 /\
+  merton_cumulant1 (merton_a lam mu_j sigma_j) lam mu_j sigma_j 1 = 0.
+Proof. exact merton_levy_mean_rate. Qed.
+
+(* --- HEM's jump sampler (HEMModel.jump_increment read pointwise; u, v = the two uniforms it draws, in stream order) is the
+       inverse-cdf method for the normalised jump density: u < p (probability p) gives a positive jump whose conditional cdf
+       hem_cdf_up x = 1 - exp(-eta1 x) the map v |-> -ln(1-v)/eta1 inverts; p <= u gives a negative jump, v |-> ln(1-v)/eta2 inverts the
+       survival function 1 - exp(eta2 x); {jump <= x} is an interval of v of length cdf(x), and lam p cdf_up / lam (1-p) cdf_down are
+       the (improper) integrals of the generated density hem_nu. *)
+Theorem C10_hem_jump_inverse_cdf : forall lam p e1 e2 u v, 0 < e1 -> 0 < e2 -> 0 <= v < 1 ->
+  (u < p ->
+     0 <= hem_jump p e1 e2 u v /\ hem_cdf_up e1 (hem_jump p e1 e2 u v) = v /\
+     (forall x, 0 <= x -> (hem_jump p e1 e2 u v <= x <-> v <= hem_cdf_up e1 x))) /\
+  (p <= u ->
+     hem_jump p e1 e2 u v <= 0 /\ hem_cdf_down e2 (hem_jump p e1 e2 u v) = 1 - v /\
+     (forall x, x <= 0 -> (hem_jump p e1 e2 u v <= x <-> 1 - hem_cdf_down e2 x <= v))) /\
+  (forall x, 0 <= x -> is_RInt (fun y => y ^ 0 * hem_nu lam p e1 e2 y) 0 x (lam * p * hem_cdf_up e1 x)) /\
+  (forall x, x <= 0 -> is_lim (fun a => RInt (fun y => y ^ 0 * hem_nu lam p e1 e2 y) a x) m_infty (lam * (1 - p) * hem_cdf_down e2 x)).
+Proof. exact hem_jump_inverse_cdf. Qed.
+
+(* --- after the calibration sequence (deepcopy parameters, setattr, Parameters.initialisation(), rebuild): the cached constants as
+       initialisation() re-derives them (hem_reinit_xi, vg_reinit_*, cgmy_reinit_*: py2coq translations of the initialisation methods)
+       carry the direct-route identity (HEM), the Levy-Khintchine clause (VG) and are what cgmy_pj reads (CGMY). *)
+Theorem C10_after_initialisation :
+  (forall r d sigma lam p eta1 eta2, 1 < eta1 -> eta2 <> -1 ->
+     direct_growth (hem_process_drift r d sigma lam eta1 (hem_reinit_xi sigma p eta1 eta2 lam)) sigma (hem_pj lam p eta1 eta2 1) = r - d) /\
+  (forall sigma nu theta s, 0 < sigma -> 0 < nu ->
+     let c := vg_reinit_c sigma nu theta in let lm := vg_reinit_lambda_m sigma nu theta in let lp := vg_reinit_lambda_p sigma nu theta in
+     - lm < s < lp ->
+     is_RInt_gen (fun x => lk_integrand ZERO true s x * vg_nu c lm lp x) (Rbar_locally m_infty) (at_left 0) (VLn c lm s) /\
+     is_RInt_gen (fun x => lk_integrand ZERO true s x * vg_nu c lm lp x) (at_right 0) (Rbar_locally p_infty) (VLp c lp s) /\
+     kappa 0 0 (vg_pj sigma nu theta) s = VLn c lm s + VLp c lp s) /\
+  (forall (Gamma : R -> R) c g m y,
+     cgmy_reinit_CGammamY Gamma c g m y = cgmy_init_CGammamY Gamma c g m y /\
+     cgmy_reinit_GpowerY Gamma c g m y = Rpower g y /\ cgmy_reinit_MpowerY Gamma c g m y = Rpower m y).
+Proof. exact after_initialisation. Qed.
 
 (* --- Markov-chain route.  The chain (markovchain.py) truncates the measure, converts the triplet to TILDE with the
    TRUNCATED first moments, and uses drift = model.drift() + a_tilde + mu_tilde - mu_h.
@@ -161,6 +234,14 @@ Example C10_nonvacuous : forall INF m1,
   t_a (set_representation INF m1 true CENTER (set_representation INF m1 true ONEONE (mkTriplet 5 ZERO)))
   = 5 + m1 (-1) 1 + (m1 (- INF) (-1) + m1 1 INF).
 Proof. exact conversions_example. Qed.
+(* non-vacuity of the Variance Gamma statements (sigma = 1, nu = 2, theta = 0: c = 1/2, lambda_p = lambda_m = 1, s = 1/2 inside the
+   strip with a non-zero exponent) and of the sampler statement (both branches, jumps +1 and -1) *)
+Example C10_vg_nonvacuous : vg_init_c 1 2 0 = / 2 /\ vg_init_lambda_p 1 2 0 = 1 /\ vg_init_lambda_m 1 2 0 = 1 /\
+  - vg_init_lambda_m 1 2 0 < 1 / 2 < vg_init_lambda_p 1 2 0 /\ 0 < VLp (/ 2) 1 (1 / 2).
+Proof. exact vg_example. Qed.
+Example C10_hem_jump_nonvacuous :
+  hem_jump (1 / 2) 2 3 (1 / 4) (1 - exp (- 2)) = 1 /\ hem_jump (1 / 2) 2 3 (3 / 4) (1 - exp (- 3)) = - 1.
+Proof. exact hem_jump_example. Qed.
 
 Print Assumptions C10_conversions_path_independent.
 Print Assumptions C10_conversions_any_sequence.
@@ -178,8 +259,16 @@ Print Assumptions C10_cumulants_merton.
 Print Assumptions C10_cumulants_vg.
 Print Assumptions C10_cumulants_cgmy_partial.
 Print Assumptions C10_hem_exponent.
+Print Assumptions C10_vg_exponent.
+Print Assumptions C10_levy_direct_mean_hem.
+Print Assumptions C10_levy_direct_mean_vg.
+Print Assumptions C10_levy_direct_mean_merton_algebra.
+Print Assumptions C10_hem_jump_inverse_cdf.
+Print Assumptions C10_after_initialisation.
 Print Assumptions C10_ctmc_route_algebra.
 Print Assumptions C10_martingale_ctmc_hem.
 Print Assumptions C10_ctmc_truncation_bias_algebra.
 Print Assumptions C10_ctmc_truncated_hem.
 Print Assumptions C10_nonvacuous.
+Print Assumptions C10_vg_nonvacuous.
+Print Assumptions C10_hem_jump_nonvacuous.
